@@ -2,7 +2,7 @@
 
 PROP = dict(
     level="proof",
-    lean_modules=['PopsModel.Props.C17', 'PopsModel.Props.C17Kern'],
+    lean_modules=['PopsModel.Props.C17', 'PopsModel.Props.C17Kern', 'PopsModel.Props.NonVacuous.Host', 'PopsModel.Props.NonVacuous.KernelsReal'],
     theorems=['Pops.C17_departure_rule', 'Pops.C17_leaving', 'Pops.C17_arrival', 'Pops.C17_two_phase', 'Pops.C17_outside_recorded', 'Pops.C17_movement_rows', 'Pops.C17_movement_once', 'Pops.C17_movement_amount', 'Pops.C17_overpopulation_kernel_scale', 'Pops.C17_overpopulation_kernel_rejects', 'Pops.C17_overpopulation_kernel_is_natural', 'Pops.C17_overpopulation_uniform_range'],
     commands=['hp.pestsfrom', 'hp.peststo', 'hp.move', 'hp.overpop', 'hp.movement', 'kern.overpop'],
     runs={
